@@ -59,6 +59,7 @@ func newZWorld(p *Program) *zworld {
 type zfn struct {
 	convBusy  map[*ssa.Convert]bool
 	pgDepth   int
+	nilDepth  int
 	convExact map[*ssa.Convert]bool
 	addBusy   map[*ssa.BinOp]bool
 	addExact  map[*ssa.BinOp]bool
@@ -1070,6 +1071,46 @@ func (z *zfn) nilEdges(errV ssa.Value) []*ssa.BasicBlock {
 				if s != nil && edgeOnly(iff.Block(), s) {
 					out = append(out, s)
 				}
+			}
+		}
+	}
+	// the error joined with an earlier one before it is tested (`if err == nil { _, err = g() }; if err != nil { return }`):
+	// the join is nil only through this error's edge when every other edge carries a value that is known not to be nil
+	// on that edge — behind the join's nil test this error is nil too
+	if refs := errV.Referrers(); refs != nil && z.nilDepth < 2 {
+		for _, r := range *refs {
+			ph, ok := r.(*ssa.Phi)
+			if !ok {
+				continue
+			}
+			only := true
+			for j, e := range ph.Edges {
+				if e == errV {
+					continue
+				}
+				if isNilConst(e) {
+					only = false
+					break
+				}
+				pred := ph.Block().Preds[j]
+				excluded := false
+				for _, nt := range nilTests(e) {
+					if nt.nonNil == nil || nt.nonNil == nt.isNil {
+						continue
+					}
+					if nt.nonNil == pred || nt.nonNil.Dominates(pred) || (nt.iff.Block() == pred && nt.nonNil == ph.Block()) {
+						excluded = true
+					}
+				}
+				if !excluded {
+					only = false
+					break
+				}
+			}
+			if only {
+				z.nilDepth++
+				out = append(out, z.nilEdges(ph)...)
+				z.nilDepth--
 			}
 		}
 	}
